@@ -124,7 +124,7 @@ def slots(ctx, cgf):
     pushed = cgf.expr_of_operand(pb['term']['args'][1])
     fb = find_calls(pushed, 'function::build')
     okb = bool(fb) and fb[0][2][2] == ('int', 1, 'bool') and any(is_call(x, 'Iterator::next') for x in walk(fb[0][2][3]))
-    ctx.ob(['C04'], 'R-EXPR', 'CGF|pushes-built-function', okb, 'the pushed value is function::build(.., is_vfunc = true, current declaration): %s' % show(pushed)[:160], loc(pb['span']))
+    ctx.ob(['C04', 'C20', 'C17'], 'R-EXPR', 'CGF|pushes-built-function', okb, 'the pushed value is function::build(.., is_vfunc = true, current declaration): %s' % show(pushed)[:160], loc(pb['span']))
     inloop = [c for c in pads if c['block'] in body]
     after = [c for c in pads if c['block'] not in body]
     ok = len(inloop) == 1 and len(after) == 1
@@ -596,6 +596,37 @@ def inject(ctx):
                 fs = op['text']
     ctx.ob(['C07'], 'R-SLP', 'C07|forwarding-body', okb and len(ren) == 1 and fs is not None,
            'an injected function forwards to field <base field>.<original name>; on a name clash it is renamed `<base>_<name>` (format %s)' % fs, loc(cf.span))
+    # everything else (visibility, docs, arguments, return type, convention) is the base function's own: the pushed value is a
+    # whole clone of the element, and only its name and body are overwritten
+    okw = False
+    detw = ''
+    if len(pushes) == 1:
+        pv = strip(cf.expr_of_operand(pushes[0]['term']['args'][1]))
+
+        def whole_clone(e, d=0):
+            # (not stripped: `strip` would peel the very clone we are looking for)
+            if d > 5 or not isinstance(e, tuple):
+                return False
+            if e[0] == 'call' and e[1].endswith('::clone') and FUNCTION in e[4] and any(
+                    isinstance(y, tuple) and y[0] == 'payload' and y[2] == 'Some' and is_call(strip(y[1]), 'Iterator::next') for y in walk(e[2][0])):
+                return True
+            # builder methods of Function that take self by value and return Self (with_body / with_name): the receiver must be the clone
+            if e[0] == 'call' and re.search(r'function::Function::with_(body|name)$', e[1]) and e[2]:
+                return whole_clone(e[2][0], d + 1)
+            return False
+        if pv[0] != 'var':
+            pv = cf.expr_of_operand(pushes[0]['term']['args'][1])
+        if pv[0] == 'var':
+            inits = cf.init_of(pv[1])
+            stores_ = [x[3]['place']['proj'] for x in cf.stores().get(pv[1], []) if x[2] == 'rv' or True]
+            fields_ = {pr[0]['name'] for pr in stores_ if pr and pr[0].get('k') == 'Field'}
+            okw = bool(inits) and all(whole_clone(d_) for d_ in inits) and fields_ <= {'name', 'body'}
+            detw = 'definitions %s, fields overwritten %s' % ([show(d_)[:60] for d_ in inits], sorted(fields_))
+        else:
+            okw = whole_clone(pv)
+            detw = show(pv)[:100]
+    ctx.ob(['C07', 'C17'], 'R-SLP', 'C07|forwarder-keeps-everything-else', okw,
+           'an injected function is a copy of the base\'s function in which only the name (on a clash) and the body are replaced — documentation, visibility, signature and convention are kept: %s' % detw, loc(cf.span))
 
 
 # ------------------------------------------------------------------------------------------------
